@@ -84,6 +84,144 @@ theorem sorted_perm_unique (l₁ l₂ : List (List Nat)) (hp : l₁.Perm l₂)
   have := cmp_antisymm a b true
   exact (cmp_zero_iff a b true).mp (by omega)
 
+/-! ## the descriptive clauses of the property
+
+`val` is the decimal value of a list of digit bytes, `zc s` the number of leading `'0'` bytes of `s`, `dg s` the digit
+run after them, `cmpBytes` the plain lexicographic byte comparison, `fold true` the ASCII upper-casing of `a`–`z`. -/
+
+/-- "a proper prefix sorts first": for every string `a` and every non-empty extension `s`, in both case modes -/
+theorem proper_prefix_first (a s : List Nat) (ci : Bool) (hs : s ≠ []) : naturalCmp a (a ++ s) ci = -1 := by
+  unfold naturalCmp; rw [ncmp_prefix a s ci hs]; rfl
+
+/-- "digits sort before non-digits": the first bytes differ in digit-ness, the digit side is smaller -/
+theorem digit_before_nondigit (c1 c2 : Nat) (s t : List Nat) (ci : Bool)
+    (h1 : isDigit c1 = true) (h2 : isDigit c2 = false) : naturalCmp (c1 :: s) (c2 :: t) ci = -1 := by
+  unfold naturalCmp; rw [ncmp_digit_nondigit c1 c2 s t ci h1 h2]; rfl
+
+/-- a common prefix that does not end in a digit (so that no digit run straddles the cut) does not influence the
+    result … -/
+theorem common_prefix_cancel (p a b : List Nat) (ci : Bool) (h : ∀ c, p.getLast? = some c → isDigit c = false) :
+    naturalCmp (p ++ a) (p ++ b) ci = naturalCmp a b ci := by
+  unfold naturalCmp; rw [ncmp_common_prefix p a b ci h]
+
+/-- … hence "digits before non-digits" holds at every chunk boundary, not only at the start of the strings -/
+theorem digit_before_nondigit_at (p : List Nat) (c1 c2 : Nat) (s t : List Nat) (ci : Bool)
+    (hp : ∀ c, p.getLast? = some c → isDigit c = false)
+    (h1 : isDigit c1 = true) (h2 : isDigit c2 = false) : naturalCmp (p ++ c1 :: s) (p ++ c2 :: t) ci = -1 := by
+  rw [common_prefix_cancel p _ _ ci hp]; exact digit_before_nondigit c1 c2 s t ci h1 h2
+
+/-- "other bytes compare bytewise": on strings without digits the case-sensitive comparison is the plain
+    lexicographic byte comparison -/
+theorem bytes_bytewise (a b : List Nat) (ha : ∀ c ∈ a, isDigit c = false) (hb : ∀ c ∈ b, isDigit c = false) :
+    ncmp a b false = cmpBytes a b := by
+  rw [ncmp_nodigit a b false ha hb]
+  have f : ∀ l : List Nat, l.map (fold false) = l := by
+    intro l; induction l with
+    | nil => rfl
+    | cons x l ih => simp [fold_false, ih]
+  rw [f, f]; cases cmpBytes a b <;> rfl
+
+/-- "ASCII letters folded in case-insensitive mode, the case-sensitive order breaking ties": on strings without
+    digits the folded strings are compared bytewise first, the unfolded ones second -/
+theorem bytes_bytewise_ci (a b : List Nat) (ha : ∀ c ∈ a, isDigit c = false) (hb : ∀ c ∈ b, isDigit c = false) :
+    ncmp a b true = (cmpBytes (a.map (fold true)) (b.map (fold true))).then (cmpBytes a b) := by
+  rw [ncmp_nodigit a b true ha hb]; rfl
+
+/-- what folding is: `a`–`z` (97–122) are mapped to `A`–`Z`, every other byte (non-ASCII included) is left alone;
+    without the flag nothing is folded -/
+theorem fold_spec (c : Nat) :
+    fold false c = c ∧ fold true c = (if 97 ≤ c ∧ c ≤ 122 then c - 32 else c) := by
+  by_cases h1 : 97 ≤ c <;> by_cases h2 : c ≤ 122 <;> simp [fold, h1, h2]
+
+/-- `cmpBytes` is the standard lexicographic order of byte lists -/
+theorem cmpBytes_lex (a b : List Nat) :
+    (cmpBytes a b = .lt ↔ a < b) ∧ (cmpBytes a b = .eq ↔ a = b) ∧ (cmpBytes a b = .gt ↔ b < a) := by
+  refine ⟨cmpBytes_lt_iff a b, cmpBytes_eq_iff a b, ?_⟩
+  rw [← cmpBytes_lt_iff b a, cmpBytes_swap a b]
+  cases cmpBytes a b <;> simp [Ordering.swap]
+
+/-- "digit runs compare by numeric value whatever their length (leading zeros only break ties, fewer zeros first)",
+    chunk level: two number chunks whose digit lists have no leading zero compare by decimal value, then by zero count -/
+theorem digits_numeric (n1 n2 : List Nat) (z1 z2 : Nat)
+    (d1 : ∀ c ∈ n1, isDigit c = true) (d2 : ∀ c ∈ n2, isDigit c = true)
+    (l1 : n1.head? ≠ some 48) (l2 : n2.head? ≠ some 48) :
+    cmpChunk (.num n1 z1) (.num n2 z2) = (cmpNat (val n1) (val n2)).then (cmpNat z1 z2) :=
+  cmpChunk_num_val n1 n2 z1 z2 d1 d2 l1 l2
+
+/-- the hypotheses of `digits_numeric` hold for every number chunk of every key (so `cmp_key` + `digits_numeric`
+    describe the whole comparison), and the chunk's zero count / digits are the leading zeros / the rest of the run -/
+theorem key_num_wellformed (ci : Bool) (s : List Nat) (n : List Nat) (z : Nat) (h : Chunk.num n z ∈ key ci s) :
+    (∀ c ∈ n, isDigit c = true) ∧ n.head? ≠ some 48 :=
+  key_num_wf ci s n z h
+
+/-- the pieces `zc`, `dg`, `rs` of a string: `zc s` zeros, then the digits `dg s` (all digits, no leading zero), then
+    `rs s`, which does not start with a digit -/
+theorem parts_spec (s : List Nat) :
+    s = List.replicate (zc s) 48 ++ dg s ++ rs s ∧ (∀ c ∈ dg s, isDigit c = true) ∧ (dg s).head? ≠ some 48 ∧
+      (∀ c, (rs s).head? = some c → isDigit c = false) := by
+  refine ⟨(recon s).symm, dg_digits s, dg_head s, ?_⟩
+  intro c hc
+  unfold rs at hc
+  generalize (dropZeros s).2 = l at hc
+  cases l with
+  | nil => simp [takeDigits] at hc
+  | cons x t =>
+    simp only [takeDigits] at hc
+    split at hc
+    · -- the rest after a maximal digit run starts with a non-digit
+      have : ∀ l : List Nat, ∀ c, (takeDigits l).2.head? = some c → isDigit c = false := by
+        intro l; induction l with
+        | nil => simp [takeDigits]
+        | cons y u ih =>
+          intro c hc; simp only [takeDigits] at hc
+          split at hc
+          · exact ih c hc
+          · simp at hc; subst hc; simpa using ‹¬isDigit y = true›
+      exact this t c hc
+    · simp at hc; subst hc; simpa using ‹¬isDigit x = true›
+
+/-- numeric rule at the head of two strings that both start with a digit: compare the VALUES of the two maximal digit
+    prefixes (any lengths, leading zeros included), then their numbers of leading zeros, then the remainders -/
+theorem digits_numeric_head (c1 c2 : Nat) (t1 t2 : List Nat) (ci : Bool)
+    (h1 : isDigit c1 = true) (h2 : isDigit c2 = true) :
+    ncmp (c1 :: t1) (c2 :: t2) ci =
+      ((cmpNat (val (takeDigits (c1 :: t1)).1) (val (takeDigits (c2 :: t2)).1)).then
+        (cmpNat (zc (c1 :: t1)) (zc (c2 :: t2)))).then
+        (ncmp (takeDigits (c1 :: t1)).2 (takeDigits (c2 :: t2)).2 ci) :=
+  ncmp_digit_head c1 c2 t1 t2 ci h1 h2
+
+/-- numeric rule for whole strings that are digit runs (any lengths, also empty): values first, then zero counts -/
+theorem digits_numeric_strings (a b : List Nat) (ci : Bool)
+    (ha : ∀ c ∈ a, isDigit c = true) (hb : ∀ c ∈ b, isDigit c = true) :
+    naturalCmp a b ci = ordInt ((cmpNat (val a) (val b)).then (cmpNat (zc a) (zc b))) := by
+  unfold naturalCmp; rw [ncmp_digits a b ci ha hb]
+
+/-- … in particular a smaller value sorts first whatever the lengths … -/
+theorem digits_value_lt (a b : List Nat) (ci : Bool)
+    (ha : ∀ c ∈ a, isDigit c = true) (hb : ∀ c ∈ b, isDigit c = true) (h : val a < val b) :
+    naturalCmp a b ci = -1 := by
+  rw [digits_numeric_strings a b ci ha hb, (cmpNat_lt_iff _ _).mpr h]; rfl
+
+/-- … and for equal values fewer leading zeros sort first ("2" < "02") -/
+theorem digits_zeros_lt (a b : List Nat) (ci : Bool)
+    (ha : ∀ c ∈ a, isDigit c = true) (hb : ∀ c ∈ b, isDigit c = true) (hv : val a = val b) (hz : zc a < zc b) :
+    naturalCmp a b ci = -1 := by
+  rw [digits_numeric_strings a b ci ha hb, hv, (cmpNat_eq_iff _ _).mpr rfl, (cmpNat_lt_iff _ _).mpr hz]; rfl
+
+/-- `val` is the usual decimal value: appending a digit is "times ten plus the digit" -/
+theorem val_horner (l : List Nat) (c : Nat) : val [] = 0 ∧ val (l ++ [c]) = val l * 10 + (c - 48) :=
+  ⟨rfl, val_snoc l c⟩
+
+/-! non-vacuity of the new clauses: "9" < "10", "2" < "02", "a" < "a0", "a1" < "ab", val "0123" = 123 -/
+example : naturalCmp [57] [49, 48] true = -1 :=
+  digits_value_lt _ _ _ (by simp [isDigit]) (by simp [isDigit]) (by simp [val])
+example : naturalCmp [50] [48, 50] false = -1 :=
+  digits_zeros_lt _ _ _ (by simp [isDigit]) (by simp [isDigit]) (by simp [val]) (by simp [zc, dropZeros])
+example : naturalCmp [97] ([97] ++ [48]) true = -1 := proper_prefix_first _ _ _ (by simp)
+example : naturalCmp ([97] ++ 49 :: []) ([97] ++ 98 :: []) true = -1 :=
+  digit_before_nondigit_at _ _ _ _ _ _ (by simp [isDigit]) (by simp [isDigit]) (by simp [isDigit])
+example : val [48, 49, 50, 51] = 123 := by simp [val]
+
 /-! non-vacuity: the hypotheses of `cmp_trans` are met by concrete strings ("a2" ≤ "a12" ≤ "b") -/
 example : naturalCmp [97, 50] [97, 49, 50] false ≤ 0 ∧ naturalCmp [97, 49, 50] [98] false ≤ 0 := by
   simp [naturalCmp, ncmp, ncmpLoop, isDigit, dg, zc, rs, dropZeros, takeDigits, fold, cmpNat, ordInt]
